@@ -428,6 +428,59 @@ func c02(x *mon.Ctx) {
 
 	systemStoreIsNotARootOfTrust(x)
 
+	// ---- certificates that have been seen before, in their proper roles, presented in ANOTHER role: a hierarchy whose CA and
+	//      signing certificates happen to carry a well-formed SGX extension (nothing forbids it) is verified honestly first — the
+	//      quote, with collateral, with revocation — and then the very same certificates come back with the platform CA, or the TCB
+	//      signer, in the leaf slot (QE report signed by that certificate's key). What a certificate was good for once says
+	//      nothing about what it is good for now.
+	for wi := 0; wi < x.Pick(3, 12); wi++ {
+		r := x.Rand(fmt.Sprint("known-certificates", wi))
+		w := richHonest(r)
+		sgx := []pkix.Extension{{Id: world.OidSgx, Value: world.SgxExtension(w.P)}}
+		it := world.InterTemplate(world.CNPlatform, world.Far)
+		it.ExtraExtensions = sgx
+		inter := world.Issue(it, w.PKI.Root, world.NewKey())
+		tt := world.TcbSignTemplate(world.Far)
+		tt.ExtraExtensions = sgx
+		signer := world.Issue(tt, w.PKI.Root, world.NewKey())
+		w.PKI.Inter, w.PKI.TcbSign = inter, signer
+		w.PKI.Leaf = world.Issue(world.LeafTemplate(world.Far, world.SgxExtension(w.P)), inter, world.NewKey())
+		w.Q.Chain = world.ChainPEM(false, w.PKI.Leaf, inter, w.PKI.Root)
+		w.Q.SignQE(w.PKI.Leaf.Key)
+		w.MakeCRLs(nil, nil)
+		w.Resign()
+		okAll := true
+		for _, l := range levels {
+			c := w.Case(l, "role-of-certificates-seen-before", fmt.Sprintf("w%d/control", wi))
+			c.Expect = "accept"
+			if out, _ := check(x, wi, c); !out.Accepted {
+				okAll = false
+			}
+		}
+		if !okAll {
+			continue
+		}
+		for name, cs := range map[string][]*world.Cert{
+			"platform-ca-as-leaf-root-as-intermediate": {inter, w.PKI.Root, w.PKI.Root},
+			"tcb-signer-as-leaf-root-as-intermediate":  {signer, w.PKI.Root, w.PKI.Root},
+			"platform-ca-as-leaf-under-itself":         {inter, inter, w.PKI.Root},
+			"tcb-signer-as-leaf-under-the-platform-ca": {signer, inter, w.PKI.Root},
+			"leaf-as-intermediate":                     {w.PKI.Leaf, w.PKI.Leaf, w.PKI.Root},
+		} {
+			w2 := w.Clone()
+			w2.Q.Chain = world.ChainPEM(false, cs...)
+			w2.Q.SignQE(cs[0].Key)
+			for _, l := range levels {
+				for rep := 0; rep < 2; rep++ {
+					c := w2.Case(l, "role-of-certificates-seen-before", fmt.Sprintf("w%d/%s/presentation%d", wi, name, rep+1))
+					c.Expect, c.Form = "reject", mon.Forms[(wi+l+rep)%4]
+					check(x, wi, c)
+				}
+			}
+		}
+	}
+	x.Require("role-of-certificates-seen-before", 3*x.Pick(3, 12)-3, 25*x.Pick(3, 12), 30*x.Pick(3, 12))
+
 	// ---- root-of-trust configurations
 	dir := filepath.Join(x.OutDir, "rot")
 	if x.OutDir == "" {
